@@ -27,6 +27,14 @@ def assignFromBack {β : Type} (v : List β) (found : Option Nat) : List β :=
   | some i, some l => v.set i l
   | _, _ => v
 
+/-- what `call_matcher::report_mismatch` (the "Tried …" explanation of one expectation) inserts into the stream. -/
+inductive MTok (κ : Type)
+  | signature                 -- `report_signature(os)`
+  | failedWith (c : κ)        -- "Failed WITH(" << cond.name() << ')'
+  | paramMismatch             -- `print_mismatch(os, val, params)`: the parameters that reject the call
+  | text
+  deriving DecidableEq, Repr
+
 /-- what `hexdump` inserts into the stream, manipulators included. -/
 inductive HTok
   | sentry                 -- `stream_sentry s(os)`
